@@ -4,3 +4,5 @@ import AJ.Props.C05Doc
 import AJ.Props.C05Copy
 import AJ.Props.C05Deser
 import AJ.Props.C05MpDeser
+import AJ.Props.C05FDeser
+import AJ.Props.C05FMpDeser
